@@ -15,6 +15,7 @@ type S struct {
 	A, B *S
 	Call *CallSite
 	Why  string // unsupported / guard: reason
+	Ren2 []int  // need: guard classes
 }
 
 // CallSite is a call to a translated function; Ren is filled in late (pass 2).
@@ -116,7 +117,7 @@ func (s *S) relevantAtoms(isRelevantCallee func(*Fn) bool) bool {
 		return false
 	}
 	switch s.K {
-	case "acq", "rel", "pileLock", "pileUnlock", "pileUnlockAll", "unsupported":
+	case "acq", "rel", "pileLock", "pileUnlock", "pileUnlockAll", "unsupported", "need":
 		return true
 	case "call":
 		return isRelevantCallee(s.Call.Callee)
@@ -210,6 +211,17 @@ func (s *S) lean(b *strings.Builder, whys *interner) {
 		b.WriteString(" ")
 		s.B.lean(b, whys)
 		b.WriteString(")")
+	case "need":
+		b.WriteString("(.need [")
+		for i, c := range s.Ren2 {
+			if i > 0 {
+				b.WriteString(", ")
+			}
+			fmt.Fprintf(b, "%d", c)
+		}
+		b.WriteString("])")
+	case "mark":
+		fmt.Fprintf(b, "(.mark %d %d)", s.L, s.P)
 	case "ret":
 		fmt.Fprintf(b, "(.ret %d)", s.Tag)
 	case "unsupported":
